@@ -584,7 +584,7 @@ func (c *simCluster) handleProduce(b *simBroker, r *ProduceRequest, wire int) (e
 				pt.log = append(pt.log, x)
 				ids = append(ids, x.id)
 				if s := c.submitted[x.id]; s == nil || !bytes.Equal(s.key, x.key) || !bytes.Equal(s.value, x.value) ||
-					!simHeadersEqual(s.hdrs, x.hdrs) || (s.tsMs >= 0 && x.tsMs != s.tsMs) {
+					!simHeadersEqual(s.hdrs, x.hdrs) || (s.tsMs >= 0 && x.tsMs >= 0 && x.tsMs != s.tsMs) {
 					bad = append(bad, x.id)
 				}
 			}
